@@ -52,7 +52,7 @@ Definition run (req : sx) : sx :=
             get_list get_z decl with
       | Some ini, Some tp, Some rs, Some b, Some e, Some decl =>
           let s0 := mkSt cs ini tp no so ck rs [] [] [] in
-          let (s, x) := process_resend (filter_of decl) b e s0 in
+          let (s, x) := serve_resend (filter_of decl) b e s0 in
           SL [sx_exc x; SI (cstate s); SI (nout s); SI (sout s); SI (clock s);
               sx_of_list sx_row (rows s); sx_of_list sx_row (wire s);
               sx_of_list SI (calls s); sx_of_list SI (states s)]
